@@ -15,12 +15,14 @@ package xts
 //@ func iface:github.com/emmansun/gmsm/internal/cipher/xts.concurrentBlocks.Concurrency trusted
 //@   ensures result == CONC(id(self)) && 1 <= result && result <= 64
 //@   modifies nothing
+// (an implementation may process two batches at once when it is given exactly two - the SM4
+// assembly cipher does -, so in-place users have to hand over exactly one batch)
 //@ func iface:github.com/emmansun/gmsm/internal/cipher/xts.concurrentBlocks.EncryptBlocks trusted
 //@   requires len(src) >= 16 * CONC(id(self)) && len(dst) >= 16 * CONC(id(self))
-//@   modifies dst[0..16 * CONC(id(self))]
+//@   modifies dst[0..ite(len(src) == 32 * CONC(id(self)) && len(dst) >= 32 * CONC(id(self)), 32 * CONC(id(self)), 16 * CONC(id(self)))]
 //@ func iface:github.com/emmansun/gmsm/internal/cipher/xts.concurrentBlocks.DecryptBlocks trusted
 //@   requires len(src) >= 16 * CONC(id(self)) && len(dst) >= 16 * CONC(id(self))
-//@   modifies dst[0..16 * CONC(id(self))]
+//@   modifies dst[0..ite(len(src) == 32 * CONC(id(self)) && len(dst) >= 32 * CONC(id(self)), 32 * CONC(id(self)), 16 * CONC(id(self)))]
 
 // Structure of the data unit: every byte position is processed. With a partial last block
 // (r = len mod 16 in 1..15) the block loops have to leave the last full block for ciphertext stealing,
@@ -40,6 +42,7 @@ package xts
 //@   loop 2 invariant onlychanged(old(plaintext))
 //@   loop 2 decreases len(ciphertext)
 //@   assert at return: len(ciphertext) == 0 || len(ciphertext) >= 16
+//@   assert before call DecryptBlocks#1: len(arg0) == batchSize && len(arg1) == batchSize
 //@   assert after call *: onlychanged(old(plaintext))
 
 //@ func (*xtsEncrypter).CryptBlocks property C03
@@ -60,3 +63,4 @@ package xts
 //@   loop 2 decreases len(plaintext)
 //@   assert after call *: onlychanged(old(ciphertext))
 //@   assert at return: len(plaintext) < 16 && len(old(plaintext)) - len(plaintext) >= 16
+//@   assert before call EncryptBlocks#1: len(arg0) == batchSize && len(arg1) == batchSize
